@@ -149,6 +149,16 @@ theorem banReason_erases_bin {P : Type} (bs : Bytes) :
     ((GV.Msg.decBanReason (P := P) .bin bs).map toBodyV).toExcept
       = some (wrap .banReason GV.SerMsg.decBanReason bs) := erases_body_banReason_bin bs
 
+/-- the PIBD responses: `SegmentResponse<T>` generically (kernel and range-proof segments) and
+`OutputSegmentResponse` -/
+theorem segmentResponse_erases {α : Type} (rd : Rdr) {p : Dec α} {q : Parser α}
+    (h : ∀ bs, (p bs).toExcept = some (q bs)) (sz : Nat) (hsz : sz ≤ 2^40) (bs : Bytes) :
+    ((rSegmentResponse rd p sz bs).map toSegmentResponse).toExcept = some (GV.SerMsg.decSegmentResponse q bs) :=
+  erases_rSegmentResponse rd h sz hsz bs
+theorem outputSegmentResponse_erases (rd : Rdr) (bs : Bytes) :
+    ((rOutputSegmentResponse rd bs).map toOutputSegmentResponse).toExcept
+      = some (GV.SerMsg.decOutputSegmentResponse bs) := erases_rOutputSegmentResponse rd bs
+
 /-- a `Hand` written by the plain model comes back from either reader of the instrumented one -/
 theorem hand_network_roundtrip (rd : Rdr) (h : GV.SerMsg.Hand) (hwf : h.WF) (rest : Bytes) :
     ((GV.Msg.decHand rd (GV.SerMsg.encHand h ++ rest)).map toHand).toExcept
